@@ -96,6 +96,29 @@ class Ctx:
         self._scanned = set()
         self.pc_log = []  # literals asserted by decide()
         self.assume_log = []  # facts asserted by assume()
+        self.loop_contracts = []  # pending loop contracts (consumed in order by symbolic range())
+
+    # -- scopes (used by proof rules whose hypotheses must not leak, e.g. induction steps)
+    def push(self):
+        self.solver.push()
+        self._scopes = getattr(self, "_scopes", [])
+        self._scopes.append(
+            (
+                {k: list(v) for k, v in self.triggers.items()},
+                {k: list(v) for k, v in self.seen_apps.items()},
+                set(self._seen_keys),
+                set(self._scanned),
+                len(self.pc_log),
+                len(self.assume_log),
+            )
+        )
+
+    def pop(self):
+        self.solver.pop()
+        tr, sa, sk, sc, npc, nas = self._scopes.pop()
+        self.triggers, self.seen_apps, self._seen_keys, self._scanned = tr, sa, sk, sc
+        del self.pc_log[npc:]
+        del self.assume_log[nas:]
 
     # -- triggers
     def add_trigger(self, fname, fact_fn):
@@ -892,6 +915,9 @@ def _opaque_sum(bounds, body):
         app = f(*frees)
     else:
         app = z3.Real(fname)
+    if active():
+        # definition of the empty sum
+        ctx().solver.add(z3.Implies(z3.Or(*[hi <= lo for _, lo, hi in pb]), app == 0))
     _SUM_DEFS.setdefault(fname, {"canon": canon, "nparams": len(frees)})
     _SUM_APPS[app.sexpr()] = (fname, list(pb), body)
     return app
